@@ -46,6 +46,14 @@ CHECKS = {
          "6*10^3 (quick) / 1.5*10^5 (thorough) histories of register / add / add-buffered / flush / set-raw-size with metadata at every byte-length boundary, reopen, sequential and random-access reads; 4*10^5+ integer magnitudes.",
          "Buffered parts use registered stream ids; file offsets stay < 2^32 (magnitudes up to 2^64-1 are covered for the integer codec and metadata only).",
          "DESIGN.md §6 C13"),
+ "C14": ("fault_enumeration", "enumeration of every strict prefix (crash point) of generated archives, opened in resource-limited child processes in two build profiles",
+         "32 (quick) / 192 (thorough) archives, every prefix length (stride 8 in the middle of archives > 200 kB), ~3*10^5 opens per quick run, each with the release and the overflow-checked build under RLIMIT_AS 4 GiB; the reachable crash states of one archive are enumerated completely, the archives themselves are sampled.",
+         "The file is written front to back in one pass, so prefixes are exactly the crash states. Only a Decompressor handle (not a bare container handle) counts as acceptance.",
+         "DESIGN.md §6 C14"),
+ "C15": ("fault_enumeration", "fault injection by file-size limit at enumerated byte offsets of generated archives (real CLI and library path in child processes)",
+         "16 (quick) / 160 (thorough) archives x ~30 / ~250 injection offsets chosen from the independent parser's directory (part starts and interiors, footer start, directory, the 8-byte length) plus random ones; thorough also all offsets of 16 small archives. Control runs at and above the final size show the injection bites exactly below it.",
+         "Fault model: first failing write at byte N and every later write fails (EFBIG as stand-in for ENOSPC). Archives stay below the 4 MiB write buffer.",
+         "DESIGN.md §6 C15"),
  "C20": ("exploration", "exhaustive enumeration of small k / short strings + proptest random strings vs naive string model",
          "All 4^k windows for k<=8 and all strings up to length k+3 over {A,C,G,T,N} for small k are enumerated; k up to 32 (weighted to 31/32) is sampled with 2*10^5 (quick) / 5*10^6 (thorough) random strings. Exploration is the right level: the property is a pure function law and the risky region (k=32, shift 0) is reached by construction.",
          "Trusts the naive model in vlib/src/naive.rs (string reversal, left-aligned 2-bit packing). Callers' reset-at-non-ACGT protocol is part of the checked behaviour.",
